@@ -124,7 +124,7 @@ type Run struct {
 	start time.Time
 
 	mu     sync.Mutex
-	stats  map[string]int64
+	stats  []statKV
 	events []string
 	evHash [32]byte
 	nEv    int64
@@ -135,12 +135,22 @@ type Run struct {
 	done   bool
 }
 
+type statKV struct {
+	k string
+	v int64
+}
+
 func (r *Run) Now() time.Duration { return time.Since(r.start) }
 
 // Logf appends to the event log. Never draws randomness nor reads a real clock.
+// The harness's own shared state is touched only in go:norace functions under
+// RaceOff, so that in -race builds neither its synchronisation (which would
+// order all program accesses) nor its memory accesses reach the detector.
+//
+//go:norace
 func (r *Run) Logf(format string, a ...interface{}) {
 	s := fmt.Sprintf(format, a...)
-	raceOff()
+	RaceOff()
 	r.mu.Lock()
 	h := sha256.New()
 	h.Write(r.evHash[:])
@@ -151,22 +161,42 @@ func (r *Run) Logf(format string, a ...interface{}) {
 		r.events = append(r.events, fmt.Sprintf("%d t=%v g=%x %s", r.nEv, time.Since(r.start), runtime.GosimID()&0xffff, s))
 	}
 	r.mu.Unlock()
-	raceOn()
+	RaceOn()
 }
 
+//go:norace
 func (r *Run) Add(name string, n int64) {
-	raceOff()
+	RaceOff()
 	r.mu.Lock()
-	r.stats[name] += n
+	found := false
+	for i := range r.stats {
+		if r.stats[i].k == name {
+			r.stats[i].v += n
+			found = true
+			break
+		}
+	}
+	if !found {
+		r.stats = append(r.stats, statKV{name, n})
+	}
 	r.mu.Unlock()
-	raceOn()
+	RaceOn()
 }
 func (r *Run) Count(name string) { r.Add(name, 1) }
+
+//go:norace
 func (r *Run) Stat(name string) int64 {
-	raceOff()
+	RaceOff()
 	r.mu.Lock()
-	defer func() { r.mu.Unlock(); raceOn() }()
-	return r.stats[name]
+	v := int64(0)
+	for i := range r.stats {
+		if r.stats[i].k == name {
+			v = r.stats[i].v
+		}
+	}
+	r.mu.Unlock()
+	RaceOn()
+	return v
 }
 
 // OpDone counts an executed workload operation.
@@ -185,19 +215,20 @@ func (r *Run) Violate(class, format string, a ...interface{}) {
 // Finish ends the run normally.
 func (r *Run) Finish() { r.finish(nil) }
 
+//go:norace
 func (r *Run) finish(v *Violation) {
-	raceOff()
+	RaceOff()
 	r.mu.Lock()
 	if r.done {
 		r.mu.Unlock()
-		raceOn()
+		RaceOn()
 		// another goroutine is already finishing; block forever
 		select {}
 	}
 	r.done = true
 	stats := map[string]int64{}
-	for k, v := range r.stats {
-		stats[k] = v
+	for _, kv := range r.stats {
+		stats[kv.k] = kv.v
 	}
 	res := &Result{
 		Prop: r.Plan.Prop, Seed: r.Plan.Seed, Violation: v, Stats: stats,
@@ -317,7 +348,7 @@ func hook(kind int) {
 func park(low bool, kind int) {
 	s := &sched
 	id := runtime.GosimID()
-	raceOff()
+	RaceOff()
 	s.mu.Lock()
 	var st *gstate
 	if n := len(s.free); n > 0 {
@@ -340,7 +371,7 @@ func park(low bool, kind int) {
 	s.mu.Lock()
 	s.free = append(s.free, st)
 	s.mu.Unlock()
-	raceOn()
+	RaceOn()
 }
 
 // Idle parks the calling goroutine until no other managed goroutine is
@@ -366,7 +397,7 @@ func schedLoop(ready chan struct{}) {
 	runtime.GosimExempt()
 	s := &sched
 	close(ready)
-	raceOff()
+	RaceOff()
 	var cand []*gstate
 	for {
 		synctest.Wait()
@@ -574,7 +605,7 @@ func execInBubble(w *World, plan *Plan, trace bool) {
 	s.disabled = plan.P("no_sched", 0) == 1
 	s.trace = os.Getenv("GOSIM_SCHEDTRACE") != ""
 	r := &Run{Plan: plan, World: w, Rng: rand.New(rand.NewSource(int64(mix(seed, 3)))),
-		stats: map[string]int64{}, keep: trace, start: time.Now()}
+		keep: trace, start: time.Now()}
 	if !s.disabled {
 		ready := make(chan struct{})
 		go schedLoop(ready)
